@@ -46,4 +46,28 @@ PROPS = {
         unverified=['"every gate reaches an output" (remove_unused_gates): differential search only',
                     'consequence for whole data-movement programs (composition over compile)'],
     ),
+    'C02': dict(
+        units=['panic'],
+        deps=[('builder', 'C04')],
+        witness=['c02', '--random', '20000'],
+        witness_thorough=['c02', '--random', '400000'],
+        level='proof',
+        technique='Verus contracts on the real push_panic_if / mux_uncached_panic / mux_panic / replace_panic_with, with the '
+                  'recorded-conditions invariant; gate-emitting callees by their contracts (proved in unit builder)',
+        claim='Unbounded deductive proof (Verus/Z3) on the real panic-record functions: after push_panic_if the record reports a panic iff '
+              'one was reported before or the condition holds, an earlier panic is never overwritten, and otherwise reason and location '
+              'are those of this (first) failing operation; at a merge (mux_uncached_panic / mux_panic) every wire of the record is that '
+              'of the branch taken and only conditions recorded on both paths stay recorded; replace_panic_with is a pure swap. For every '
+              'builder state, record, condition wire and input assignment. Which operations call push_panic_if with which condition '
+              '(compile arms) is outside every contract; a bounded differential search over operation trees on the real code stands in '
+              'for build/EvalPanic layout (labelled bounded).',
+        note='Trusted: core builder contracts are proved in unit builder (run as part of this check); vstd specs of HashSet/arrays; '
+             'std::mem::replace specification (assume_specification); unsigned_as_usize_bits contract (external_body in Verus; '
+             'bounded differential search exercises it); source locations < 2^32. '
+             'Unverified: the save/restore/mux protocol around branches inside compile (If/Match/&&/||/JoinLoop arms).',
+        title='panic record: panic iff earlier or cond; never overwritten; first failure wins; untaken branch silent at merges',
+        unverified=['which operations call push_panic_if with which condition (C03 for arithmetic; compile arms otherwise)',
+                    'save/restore/mux protocol around branches in TypedExpr::compile / TypedStmt::compile',
+                    'EvalPanic::parse and build (panic record wiring to outputs): bounded differential search only'],
+    ),
 }
